@@ -241,6 +241,8 @@ def shrink(lines, max_rounds=200):
             i = min(i, len(cur) - 2)
     # shrink pixel lists of the remaining lines
     for i in range(len(cur)):
+        if i >= len(cur):
+            break
         toks = cur[i].split()
         if any(t.startswith(('ring=', 'lon=', 'nb=', 'r2n=', 'n2r=')) for t in toks):
             continue
